@@ -15,6 +15,21 @@ from harness import common, family, graphs, targets
 QUERIES = ['iterate_memo', 'iterate_basic', 'iterate_noint', 'paths_by_id', 'all_paths']
 
 
+class Pair2:
+  """A node type registered only in a caller-supplied registry."""
+
+  def __init__(self, first, second):
+    self.first, self.second = first, second
+
+
+REGISTRY = daglish.NodeTraverserRegistry(use_fallback=True)
+REGISTRY.register_node_traverser(
+    Pair2,
+    flatten_fn=lambda p: ((p.first, p.second), None),
+    unflatten_fn=lambda values, _: Pair2(*values),
+    path_elements_fn=lambda p: (daglish.Attr('first'), daglish.Attr('second')))
+
+
 def cases(tier, r):
   n = 900 if tier == 'quick' else 15000
   for i in range(n):
@@ -91,7 +106,11 @@ def execute(case):
   sound = True
   for mode in (dict(), dict(memoized=False), dict(memoized=True, memoize_internables=False)):
     for v, p in daglish.iterate(root, **mode):
-      got = daglish.follow_path(root, p)
+      try:
+        got = daglish.follow_path(root, p)
+      except Exception:
+        sound = False
+        continue
       if graphs.is_atom(v):
         sound = sound and (got == v and type(got) is type(v))
       else:
@@ -107,6 +126,36 @@ def execute(case):
   obs['rebuild_ddict_ok'] = all(
       type(a) is type(b) and (not isinstance(a, collections.defaultdict) or a.default_factory is b.default_factory)
       for (a, _), (b, _) in zip(daglish.iterate(root, memoized=False), daglish.iterate(rebuilt, memoized=False)))
+  # a caller-supplied registry (a node type registered only there) in both traversal modes
+  wrapped = Pair2(root, [root, 5])
+  want = []
+
+  def walk2(x, path):
+    want.append(json.dumps([graphs.vproto(enc, x) if not isinstance(x, Pair2) else {'r': 'P'}, path]))
+    if isinstance(x, Pair2):
+      walk2(x.first, path + [['a', 'first']])
+      walk2(x.second, path + [['a', 'second']])
+      return
+    if graphs.is_atom(x):
+      return
+    if type(x) is list and x and x[0] is root and len(x) == 2 and x[1] == 5:
+      for i, v in enumerate(x):
+        walk2(v, path + [['i', i]])
+      return
+    for pe, v in enc.children(x, graphs.kind_of(x)):
+      walk2(v, path + [pe])
+  walk2(wrapped, [])
+  for memoized in (False, True):
+    try:
+      got = [json.dumps([graphs.vproto(enc, v) if not isinstance(v, Pair2) else {'r': 'P'},
+                         graphs.path_proto(p)])
+             for v, p in daglish.iterate(wrapped, memoized=memoized, registry=REGISTRY)]
+    except Exception as e:
+      got = f'raised {type(e).__name__}'
+    if memoized:
+      obs['registry_memo_subset'] = isinstance(got, list) and set(got) <= set(want) and len(got) > 1
+    else:
+      obs['registry_basic_complete'] = isinstance(got, list) and sorted(got) == sorted(want)
   # legacy API: identity traversal and paths
   try:
     # traverse_with_path rebuilds without preserving sharing (documented); memoized_traverse
@@ -206,6 +255,10 @@ def oracle(case, real):
     if sorted(map(json.dumps, allp)) != sorted(map(json.dumps, expect)):
       return {'what': 'State.get_all_paths is not exactly the set of paths to the value',
               'path': path, 'observed': allp, 'expected': expect}
+  if real.get('registry_basic_complete') is False:
+    return {'what': 'un-memoized traversal with a caller-supplied registry does not report every path'}
+  if real.get('registry_memo_subset') is False:
+    return {'what': 'memoized traversal with a caller-supplied registry reports invalid paths'}
   if not real['rebuild_equal'] or not real['rebuild_ddict_ok']:
     return {'what': 'identity traversal does not rebuild an equal structure (types / sharing)'}
   if real.get('legacy_memo_visits_once') is False:
